@@ -122,6 +122,8 @@ class AFile:
         out = []
         if isinstance(n, int):
             need = n
+            if getattr(self, 'max_per_read', None):
+                need = min(need, self.max_per_read)         # a raw stream: a read may return fewer bytes than asked for
             while need > 0 and self.pos < len(self.stream):
                 it = self.stream[self.pos]
                 sz = item_size(it)
